@@ -647,7 +647,16 @@ where
                         }
                         Ok(None) => {
                             if end_of_message {
-                                let eof_result = recognizer.decode_eof(src)?;
+                                let eof_result = match recognizer.decode_eof(src) {
+                                    Ok(result) => result,
+                                    Err(e) => {
+                                        // The whole body is buffered: discard it and keep the frames that follow.
+                                        src.clear();
+                                        src.unsplit(rem);
+                                        *state = RequestState::ReadingHeader;
+                                        break Err(e.into());
+                                    }
+                                };
                                 let final_remaining = src.remaining();
                                 let consumed = new_remaining - final_remaining;
                                 *remaining -= consumed;
